@@ -21,6 +21,7 @@ import (
 	"fmt"
 	"io"
 	"strings"
+	"unicode/utf16"
 	"unicode/utf8"
 )
 
@@ -790,12 +791,57 @@ func (t *tokenizer) readEscapedChar(isClob bool) (rune, error) {
 		if isClob {
 			return 0, t.invalidChar('u')
 		}
-		return t.readHexEscapeSeq(4)
+		r, err := t.readHexEscapeSeq(4)
+		if err != nil {
+			return 0, err
+		}
+		if utf16.IsSurrogate(r) {
+			return t.readLowSurrogate(r)
+		}
+		return r, nil
 	case 'x':
 		return t.readHexEscapeSeq(2)
 	}
 
 	return 0, &SyntaxError{fmt.Sprintf("bad escape sequence '\\%c'", c), t.pos - 2}
+}
+
+// ReadLowSurrogate is called after the \uHHHH escape of a UTF-16 surrogate: if an escape of
+// the other half follows, the two denote one code point. A lone surrogate stays as it is.
+func (t *tokenizer) readLowSurrogate(hi rune) (rune, error) {
+	cs, err := t.peekN(6)
+	if err != nil && err != io.EOF {
+		return 0, err
+	}
+	if len(cs) < 6 || cs[0] != '\\' || cs[1] != 'u' {
+		return hi, nil
+	}
+
+	lo := rune(0)
+	for _, c := range cs[2:] {
+		if !isHexDigit(c) {
+			// Not an escape we can look at here; it is read (and reported) on its own.
+			return hi, nil
+		}
+		d, err := t.fromHex(c)
+		if err != nil {
+			return 0, err
+		}
+		lo = (lo << 4) | rune(d)
+	}
+
+	r := utf16.DecodeRune(hi, lo)
+	if r == utf8.RuneError {
+		return hi, nil
+	}
+
+	// Consume the second escape.
+	for range cs {
+		if _, err := t.read(); err != nil {
+			return 0, err
+		}
+	}
+	return r, nil
 }
 
 func (t *tokenizer) readHexEscapeSeq(length int) (rune, error) {
